@@ -151,6 +151,13 @@ def run_case(case):
 				dst = os.path.join(gdir, rel)
 				os.makedirs(os.path.dirname(dst), exist_ok=True)
 				raw = (gzip.open if src.endswith('.gz') else open)(src, 'rb').read()
+				if rel.endswith('.gz') and case.get('members', 1) > 1:
+					m = case['members']
+					with open(dst, 'wb') as f:      # multi-member gzip (cat a.gz b.gz / bgzip): decompresses to the concatenation
+						for j in range(m):
+							f.write(gzip.compress(raw[len(raw) * j // m:len(raw) * (j + 1) // m]))
+					new.append(dst)
+					continue
 				with (gzip.open if rel.endswith('.gz') else open)(dst, 'wb') as f:
 					f.write(raw)
 				new.append(dst)
@@ -221,6 +228,10 @@ def bounded(tier, seed):
 			cases.append({'kind': 'cli', 'genomes': gs, 'names': nm, 'gz': [False] * len(gs), 'fmt': 'json' if i % 3 == 2 else 'csv', 'channel': channel,
 			              'cores': rnd.choice([None, 2]), 'progress': False})
 			cases.append({'kind': 'cli', 'genomes': gs[::-1], 'names': nm, 'gz': [False] * len(gs), 'fmt': 'csv', 'channel': channel, 'cores': None, 'progress': False})
+	# the same genomes as multi-member gzip files
+	for m in (2, 5):
+		gs = rnd.sample(allg, 2)
+		cases.append({'kind': 'cli', 'genomes': gs, 'names': [g + '.fasta.gz' for g in gs], 'members': m, 'gz': [False] * 2, 'fmt': 'csv', 'channel': 'positional', 'cores': None, 'progress': False})
 	for _ in range(2 if tier == 'quick' else 10):
 		cases.append({'kind': 'twodb', 'genomes': rnd.sample(allg, rnd.choice([2, 4]))})
 	n, failures, sample = 0, [], []
